@@ -1355,6 +1355,12 @@ class XMLSchemaBase(XsdValidator, ElementPathMixin[Union[SchemaType, XsdElement]
                     context.level = 0
                     context.identities = {}
                     context.max_depth = resource.lazy_depth
+
+                    # Remove the xmlns contexts of the processed chunks and
+                    # restore the namespace map of the root element
+                    context.converter.set_xmlns_context(elem, 0)
+                    namespaces.clear()
+                    namespaces.update(root_namespaces)
             else:
                 if prev_ancestors != ancestors:
                     k = 0
